@@ -287,6 +287,85 @@ func c04reject(seed uint64) c04case {
 	return cs
 }
 
+// c04secretPool: boundary values of the secondary secret. It must reach the device VERBATIM on every
+// authenticated step that asks for it (the device compares byte-exactly). Not in the pool: a secret
+// that contains the return character — it would be two lines on the wire (outside the quantifier).
+var c04secretPool = []string{
+	"s3cret!", " s3cret", "s3cret ", "\ts3cret\t", "  ", " \t ", "two  words and   more", "trailing tab\t",
+	strings.Repeat("L0ng-s3cret_", 25), "pässwörd-密码-🔑", "100%s %d%v %!x %%", `"double" 'single' \back`,
+	`^$.*+?()[]{}|\`, "privilege-exec", "configuration", "router#", "dev-L1#", "Password: ", "enable", "exit", "-", "0",
+}
+
+// c04secret: authenticated edges that ask for the password, crossed several times in both
+// directions by every kind of operation, with the i-th secret of the pool given to
+// options.WithAuthSecondary at construction.
+func c04secret(seed uint64, i int) c04case {
+	r := vlib.NewRng(seed ^ 0x5ec7e7)
+	var cs c04case
+	if i%2 == 0 {
+		cs = c04ios(seed, 1)
+		for k := range cs.levels {
+			if cs.levels[k].name == "privilege-exec" {
+				cs.levels[k].asks = true
+			}
+		}
+		cs.start = "exec"
+	} else {
+		cs = c04random(seed, 6, 1, "rand")
+		for k := range cs.levels {
+			if cs.levels[k].prev != "" {
+				cs.levels[k].auth, cs.levels[k].asks, cs.levels[k].escPrompt = true, r.Chance(3, 4), c04pwPrompt
+			}
+		}
+	}
+	cs.kind = "secret"
+	cs.line = fmt.Sprintf("c04case secret %d %d 0", seed, i)
+	cs.secret = c04secretPool[i%len(c04secretPool)]
+	cs.ops = nil
+	root := ""
+	for _, l := range cs.levels {
+		if l.prev == "" {
+			root = l.name
+		}
+	}
+	lv := func() string { return cs.levels[r.Intn(len(cs.levels))].name }
+	for k := 0; k < 4; k++ {
+		cs.ops = append(cs.ops, c04op{kind: "acq", arg: lv()}, c04op{kind: "cmd", arg: r.Pick(c04payload)},
+			c04op{kind: "cfgs", priv: lv(), lines: []string{r.Pick(c04payload)}}, c04op{kind: "acq", arg: root},
+			c04op{kind: "int", priv: lv(), lines: []string{r.Pick(c04payload)}})
+	}
+	return cs
+}
+
+// c04nosecret: an authenticated edge, NO secondary secret configured, and a device that asks all the
+// same. Pinned from the code: `escalate` sends the plain escalate command (no interactive), the
+// password request is not a prompt, the read times out and the operation fails with a timeout
+// (SendCommand(s): privilege) error having sent the escalate command once. Outside the property's
+// quantifier (the device asks where the client cannot answer); compared with the model.
+func c04nosecret(seed uint64) c04case {
+	r := vlib.NewRng(seed ^ 0x0105ec)
+	cs := c04ios(seed, 1)
+	cs.kind = "nosecret"
+	cs.line = fmt.Sprintf("c04case nosecret %d 0 0", seed)
+	cs.secret = ""
+	for k := range cs.levels {
+		if cs.levels[k].name == "privilege-exec" {
+			cs.levels[k].asks = true
+		}
+	}
+	cs.start = "exec"
+	cs.def = r.Pick([]string{"exec", "privilege-exec"})
+	cs.ops = []c04op{{kind: "gp"}}
+	if cs.def == "exec" {
+		cs.ops = []c04op{{kind: "cmd", arg: r.Pick(c04payload)}}
+	}
+	cs.ops = append(cs.ops, c04op{kind: r.Pick([]string{"acq", "cfgs"}), arg: "configuration", lines: []string{"x"}})
+	if cs.ops[0].kind == "gp" {
+		cs.ops = cs.ops[1:]
+	}
+	return cs
+}
+
 // ---------------------------------------------------------------------------------------------
 // drivers built through the embedded platform definitions
 
@@ -335,7 +414,7 @@ func c04platform(file string, seed uint64, n int) c04case {
 	}
 	r := vlib.NewRng(seed ^ 0x91a7f0)
 	sec := pd.Default
-	cs.secret = r.Pick([]string{"s3cret!", "lab123"})
+	cs.secret = c04secretPool[r.Intn(len(c04secretPool))]
 	for _, k := range facts.SortedLevelKeys(sec.PrivilegeLevels) {
 		l := sec.PrivilegeLevels[k]
 		cs.levels = append(cs.levels, c04lvl{name: l.Name, prev: l.PreviousPriv, esc: l.Escalate, deesc: l.Deescalate,
